@@ -9,7 +9,7 @@ use crate::instruction::Instruction;
 use crate::variable::{Mut, Type, Variable};
 use crate::verif_model::Arc;
 use crate::{ExecError, Interpreter};
-use std::sync::RwLock;
+use crate::verif_model::RwLock;
 
 /// documented outcome of an integer binary operator
 #[derive(Clone, Copy, PartialEq, Eq)]
